@@ -8,7 +8,7 @@ RUNNER = "impl_m5.py"
 N = {"quick": 3000, "thorough": 100000}
 LEVEL_RULE = ("four case kinds: (cmp) a duration of either kind against another duration of either kind or a raw int / float / "
               "fraction (equal, one tick apart, far apart, negative), all six operators and their reflections; (arith) + - * / with "
-              "a duration or raw number, operands checked unchanged; (durhist) histories of 1-10 updates (assignment, in-place "
+              "a duration or raw number, operands checked unchanged (cmp also against ratio durations whose exact ratio differs by less than the 10-digit resolution); (durhist) histories of 1-10 updates (assignment, in-place "
               "add/subtract/multiply/divide, reads) on ONE duration object of either kind, beat count reported after every step; "
               "(parse) Duration.from_any / Tempo.from_any over existing objects, ints, floats, fractions, numeric strings, point "
               "lists and a malformed stream; (seconds) seconds*bpm. Results of * and / within 1e-4 tick of a rounding tie are "
@@ -44,10 +44,15 @@ def gen_dur(rng):
     return [rng.choice("DR"), t]
 
 
-def gen_raw(rng, d):
+def gen_raw(rng, d, sub=False):
     """returns ([q n d], [raw ...]) near the duration d"""
     t = d[1]
     r = rng.random()
+    if sub and rng.random() < 0.1:
+        # a ratio duration that differs from d by less than the 10-digit resolution (exact ratios differ, beat counts do not)
+        n = t * 1000 + rng.choice([1, -1, 7, -33, 250, -400, 0])
+        # what takes part in the comparison is the beat count it REPORTS: the ratio rounded to 10 digits (= t ticks)
+        return ["q", rhe(Fraction(n, 1000)), TICK], ["raw", "rdur", n, TICK * 1000]
     if r < 0.3:
         o = gen_dur(rng)
         if rng.random() < 0.5:
@@ -75,7 +80,7 @@ def gen(seed, index):
     k = rng.choice(["cmp", "cmp", "arith", "arith", "durhist", "parse", "parse", "seconds"])
     if k == "cmp":
         d = gen_dur(rng)
-        q, r = gen_raw(rng, d)
+        q, r = gen_raw(rng, d, sub=True)
         return ["cmp", d, q, r]
     if k == "arith":
         for _ in range(50):
